@@ -212,6 +212,10 @@ func (r *RolloutHistoryReconciler) getRolloutHistorySpec(rollout *rolloutv1alpha
 	if workload, err = r.Finder.getWorkloadInfoForRef(rollout.Namespace, rollout.Spec.ObjectRef.WorkloadRef); err != nil {
 		return rolloutHistorySpec, err
 	}
+	if workload == nil {
+		// no finder knows this workload (or it is gone): nothing to record
+		return rolloutHistorySpec, errors.New("workload not find")
+	}
 	rolloutHistorySpec.Workload = *workload
 	// a rollout without traffic routing has no service or traffic routing resources to record
 	if rollout.Spec.Strategy.Canary == nil || len(rollout.Spec.Strategy.Canary.TrafficRoutings) == 0 {
